@@ -784,8 +784,8 @@ func orchestrate(t *testing.T, run *core.Run) {
 		t.Fatalf("mkdtemp: %v", err)
 	}
 	defer os.RemoveAll(dir)
-	plain := map[string]int{"seq": core.Pick(400, 16000), "nested-probe": core.Pick(40, 200), "conc": core.Pick(50, 1600)}
-	raced := map[string]int{"race": core.Pick(24, 240)}
+	plain := map[string]int{"seq": core.Pick(400, 40000), "nested-probe": core.Pick(40, 400), "conc": core.Pick(50, 3000)}
+	raced := map[string]int{"race": core.Pick(24, 600)}
 	var procs []*childProc
 	start := func(bin string, plan map[string]int, shards int, race bool) {
 		if !planWanted(run, plan) {
